@@ -121,6 +121,9 @@ func AnnotatedFamily(level int, visit func(*Model)) {
 	if level >= 4 {
 		kRoot = 4
 	}
+	if level >= 5 {
+		kRoot = 5
+	}
 	if level == 1 {
 		kRoot = 1
 	}
